@@ -28,6 +28,7 @@ type cell struct {
 	Required bool           `json:"required"`
 	Default  any            `json:"default"`
 	Schema   map[string]any `json:"schema"`
+	Multi    []cell         `json:"multi"`
 }
 
 func (c cell) String() string {
@@ -290,6 +291,12 @@ func runParams() {
 		if err := json.Unmarshal([]byte(op.Cell), &c); err != nil {
 			drv.Fatal("cell: %v", err)
 		}
+		if c.Multi != nil {
+			e, n := runMulti(op, c, cv, ctx, h, alpha)
+			evals += e
+			nontriv += n
+			continue
+		}
 		ft, ok := op.Params.FieldByName("P")
 		if !ok {
 			drv.Fatal("%s has no field P", op.Params)
@@ -416,4 +423,114 @@ func defaultValue(base reflect.Type, d any) reflect.Value {
 		return reflect.ValueOf(int64(f)).Convert(base)
 	}
 	return v.Convert(base)
+}
+
+// runMulti drives an operation with several parameters: each parameter takes three core values of its
+// own (chosen so that no two parameters of the call carry the same items), all combinations; every
+// parameter must arrive as sent.
+func runMulti(op api.VerifOp, c cell, cv, ctx reflect.Value, h *api.VerifHandler, alpha []string) (evals, nontriv int64) {
+	n := len(c.Multi)
+	choices := make([][]cand, n)
+	fields := make([]reflect.StructField, n)
+	for i, mc := range c.Multi {
+		ft, ok := op.Params.FieldByName(fmt.Sprintf("P%d", i))
+		if !ok {
+			drv.Fatal("%s has no field P%d", op.Params, i)
+		}
+		fields[i] = ft
+		base := ft.Type
+		opt := isOptWrapper(base)
+		if opt {
+			vf, _ := base.FieldByName("Value")
+			base = vf.Type
+		}
+		var core []cand
+		for _, cd := range candidates(base, mc, alpha) {
+			if cd.core && (cd.class == "strings" || cd.class == "ints" || cd.class == "object" || cd.class == "map" || cd.class == "string" || cd.class == "") {
+				core = append(core, cd)
+			}
+		}
+		if len(core) == 0 {
+			drv.Fatal("no core candidates for %s of %s", ft.Name, op.Name)
+		}
+		// the longest values first (several items), then spread by parameter index
+		for k := 0; k < 3; k++ {
+			cd := core[(len(core)-1-i-7*k+10*len(core))%len(core)]
+			if opt {
+				x := reflect.New(ft.Type).Elem()
+				x.FieldByName("Value").Set(cd.v)
+				x.FieldByName("Set").SetBool(true)
+				cd.v = x
+			}
+			choices[i] = append(choices[i], cd)
+		}
+		if opt || (!mc.Required && (base.Kind() == reflect.Slice || base.Kind() == reflect.Map)) {
+			choices[i] = append(choices[i], cand{reflect.New(ft.Type).Elem(), true, "<absent>", "absent"})
+		}
+	}
+	m := cv.MethodByName(op.Name)
+	idx := make([]int, n)
+	for {
+		params := reflect.New(op.Params).Elem()
+		var desc []string
+		for i := range idx {
+			params.FieldByName(fields[i].Name).Set(choices[i][idx[i]].v)
+			desc = append(desc, fields[i].Name+"="+choices[i][idx[i]].desc)
+		}
+		evals++
+		nontriv++
+		h.Got, h.Calls = nil, 0
+		var callErr error
+		var pan any
+		func() {
+			defer func() { pan = recover() }()
+			out := m.Call([]reflect.Value{ctx, params})
+			if !out[0].IsNil() {
+				callErr = out[0].Interface().(error)
+			}
+		}()
+		k := pkase{Cell: "several parameters in one operation", Op: op.Name, Value: strings.Join(desc, " ")}
+		report := func(class string) {
+			var locs []string
+			for _, mc := range c.Multi {
+				locs = append(locs, mc.String())
+			}
+			k.Detail = strings.Join(locs, " + ")
+			drv.Violation(map[string]string{"class": "param/several/" + class, "kind": class, "operation": op.Name}, len(k.Value), k)
+		}
+		switch {
+		case pan != nil:
+			k.Error = fmt.Sprint(pan)
+			report("panic")
+		case callErr != nil:
+			k.Error = callErr.Error()
+			report("core-values-not-delivered")
+		case h.Calls != 1:
+			report("no-error-but-handler-not-invoked-once")
+		default:
+			got := reflect.ValueOf(h.Got)
+			for i := range idx {
+				g, w := got.FieldByName(fields[i].Name), choices[i][idx[i]].v
+				if !deepEq(g, w) {
+					// an optional exploded object with no member set has no serialization: identified with absent
+					k.Got = fmt.Sprintf("%s arrived as %#v", fields[i].Name, g.Interface())
+					report("a-parameter-arrived-changed")
+					break
+				}
+			}
+		}
+		// next combination
+		j := 0
+		for ; j < n; j++ {
+			idx[j]++
+			if idx[j] < len(choices[j]) {
+				break
+			}
+			idx[j] = 0
+		}
+		if j == n {
+			break
+		}
+	}
+	return
 }
